@@ -609,6 +609,21 @@ pub fn check(nest: Nest, stream: &[Ev], obs: &Observed, seen: &[Seen], at_finish
         if let Err(e) = parse_summary(text, &mut o) {
             out.push(Verdict { key: "summary-text".into(), msg: e });
         }
+        // the text states the same numbers as the counters it is printed from
+        match crate::h_report::parse_summary_full(text) {
+            Ok(t) => {
+                if (t.sc, t.st, t.parsing_errors, t.hook_errors) != (obs.sc, obs.st, obs.parsing_errors, obs.hook_errors) {
+                    out.push(Verdict {
+                        key: "summary-text".into(),
+                        msg: format!(
+                            "the summary text says scenarios {:?} steps {:?} parsing errors {} hook errors {}, the counters are {:?} {:?} {} {} (passed, skipped, failed, retried); text: {text:?}",
+                            t.sc, t.st, t.parsing_errors, t.hook_errors, obs.sc, obs.st, obs.parsing_errors, obs.hook_errors
+                        ),
+                    });
+                }
+            }
+            Err(e) => out.push(Verdict { key: "summary-text".into(), msg: e }),
+        }
     }
     // replay after Finished changes nothing
     let mut fin_cmp = at_finish.clone();
